@@ -426,6 +426,14 @@ func RunSched(r *vk.Run, p *world.Produced, s Sched, withCacheDir bool) {
 			viol = append(viol, "final scan: "+err.Error())
 			onlyConverged = false
 		}
+		// ... and whatever it dropped between the P2P stores and the sync loop is still in the P2P stores: one more tick
+		// of the store loops (a node's own timers tick them every block time; here the timers are set to an hour)
+		if len(viol) == 0 {
+			if err := f.Do(world.Action{Kind: "p2p-tick"}); err != nil && err != world.ErrWatchdog {
+				viol = append(viol, "final tick of the P2P store loops: "+err.Error())
+				onlyConverged = false
+			}
+		}
 	}
 	if len(viol) == 0 {
 		if err := f.Settle(); err != nil {
